@@ -410,7 +410,7 @@ from vlib import coq  # noqa: E402
 
 PROP = "C10"
 LEVEL = "proof"
-COQ_TARGETS = ["C10/Model.vo", "C10/Proofs.vo", "C10/FloatInst.vo"]
+COQ_TARGETS = ["C10/Model.vo", "C10/Proofs.vo", "C10/Engine.vo", "C10/EngineProofs.vo", "C10/Decomp.vo", "C10/FloatInst.vo"]
 COQ_DIRS = ["C10"]
 PROPERTIES_FILE = "Properties/C10.v"
 ALLOWED_AXIOMS = set()
@@ -711,7 +711,7 @@ def has_miss(o):
 
 
 COQ_HEAD = ("From Coq Require Import List Arith Bool PrimFloat.\nImport ListNotations.\n"
-            "From SFV Require Import C10.Model C10.FloatInst.\n")
+            "From SFV Require Import C10.Model C10.Engine C10.FloatInst.\n")
 
 
 def model_expr_cases(ctx, name, cases):
@@ -1141,3 +1141,216 @@ def replay_prog(ctx, d):
     bad = prog_predicate(spec)
     print("predicate:", bad)
     return bad is not None
+
+
+# ---------------------------------------------------------------------------------------
+# correspondence C: measured store / segment hand-over model vs real Engine runs
+#
+# history = {"n": modes, "mode": "eager" | "lazy", "free": {name: value}, "segs": [[event, ...], ...]}
+# event   = ["meas", k, v] | ["prep", k] | ["use", tree, target_mode]       (trees: arithmetic only)
+
+def gen_arith_tree(rng, d, pool):
+    if d <= 0 or not pool:
+        return list(rng.choice(pool)) if pool and rng.random() < 0.75 else rng.choice([0.5, -0.25, 2.0, 1.0, 0.125, -1.5])
+    k = rng.choice(["neg", "add", "add", "mul", "mul", "pow", "div"])
+    if k == "neg":
+        return ["neg", gen_arith_tree(rng, d - 1, pool)]
+    if k == "pow":
+        return ["pow", gen_arith_tree(rng, d - 1, pool), rng.choice([2, 3])]
+    if k == "div":
+        return ["div", gen_arith_tree(rng, d - 1, pool), rng.choice([2.0, -4.0, 0.5])]
+    return [k, gen_arith_tree(rng, d - 1, pool), gen_arith_tree(rng, rng.randint(0, d - 1), pool)]
+
+
+def gen_history(rng):
+    n = rng.randint(2, 4)
+    nseg = rng.choice([1, 1, 2, 2, 3])
+    names = rng.sample(NAMES, rng.randint(0, 2))
+    free = {nm: rng.choice([0.5, -0.75, 1.25, 0.25]) for nm in names}
+    mode = rng.choice(["eager", "lazy", "lazy"])
+    segs = []
+    measured = set()
+    for si in range(nseg):
+        seg = []
+        if si == 0 and rng.random() < 0.75:
+            seg.append(["meas", rng.randrange(n), rng.choice([0.25, -0.5, 0.75, 1.0])])
+            measured.add(seg[-1][1])
+        for _ in range(rng.randint(1, 5)):
+            r = rng.random()
+            if r < 0.4:
+                seg.append(["meas", rng.randrange(n), rng.choice([0.25, -0.5, 0.75, 1.0, -1.25, 0.375])])
+                measured.add(seg[-1][1])
+            elif r < 0.5:
+                seg.append(["prep", rng.randrange(n)])
+            else:
+                ks = list(range(n))
+                if measured and rng.random() < 0.85:
+                    ks = sorted(measured)      # mostly valid: outcomes that exist at this point
+                if mode == "eager":
+                    # eager construction shares q[k].par symbols between segment programs through the sympy
+                    # cache (finding cache:symbol-shared-between-programs): keep the indices disjoint
+                    ks = [k for k in ks if all(k not in u for j, u in enumerate(segs_used(segs)) )]
+                pool = [["free", nm] for nm in names] + [["meas", k] for k in rng.sample(ks, min(len(ks), rng.randint(1, 2)))] if ks else [["free", nm] for nm in names]
+                t = gen_arith_tree(rng, rng.randint(0, 2), pool)
+                if not atoms(t):
+                    t = ["add", t, ["meas", rng.choice(ks)]] if ks else t
+                if not atoms(t):
+                    continue
+                seg.append(["use", t, rng.randrange(n)])
+        segs.append(seg)
+    return {"n": n, "mode": mode, "free": free, "segs": segs}
+
+
+def segs_used(segs):
+    return [{a for ev_ in seg if ev_[0] == "use" for k, a in atoms(ev_[1]) if k == "meas"} for seg in segs]
+
+
+def impl_history(h):
+    """Run the history on a real gaussian Engine; returns the list of evaluated use-parameters
+    (('ok', v) | ('ParameterError',)) up to the first exception, and the kind of that exception."""
+    log = []
+    orig = ops.par_evaluate
+
+    def spy(params, dtype=None):
+        sym = any(sfpar.par_is_symbolic(p) for p in (params if isinstance(params, (list, tuple)) else [params]))
+        try:
+            r = orig(params, dtype)
+        except sfpar.ParameterError:
+            if sym:
+                log.append(("ParameterError",))
+            raise
+        if sym:
+            log.append(("ok", to_plain(r[0] if isinstance(params, (list, tuple)) else r)))
+        return r
+
+    def build(si, parent):
+        prog = sf.Program(h["n"] if parent is None else parent)
+        with prog.context as q:
+            for e in h["segs"][si]:
+                if e[0] == "meas":
+                    ops.MeasureHomodyne(0.0, select=e[2]) | q[e[1]]
+                elif e[0] == "prep":
+                    ops.Coherent(0.3, 0.1) | q[e[1]]
+                else:
+                    ops.Rgate(build_expr(e[1], prog.params, lambda k: q[k].par)) | q[e[2]]
+        return prog
+
+    ops.par_evaluate = spy
+    err = None
+    try:
+        eng = sf.Engine("gaussian")
+        progs = []
+        if h["mode"] == "eager":
+            for si in range(len(h["segs"])):
+                progs.append(build(si, progs[-1] if progs else None))
+        prev = None
+        for si in range(len(h["segs"])):
+            p = progs[si] if h["mode"] == "eager" else build(si, prev)
+            eng.run(p, args={k: v for k, v in h["free"].items() if k in p.free_params})
+            prev = p
+    except Exception as e:
+        err = type(e).__name__
+    finally:
+        ops.par_evaluate = orig
+    return log, err
+
+
+def enc_history(h):
+    def enc_ev(e):
+        if e[0] == "meas":
+            return "EMeas [%d] [[%s]]" % (e[1], coq.coq_float(e[2]))
+        if e[0] == "prep":
+            return "EPrep %d" % e[1]
+        return "EUse %s" % enc_expr(e[1])
+    fp = coq.coq_list(sorted(h["free"].items()), lambda kv: "(%d, mkF (Some (S %s)) None)" % (NAME_IDS[kv[0]], coq.coq_float(kv[1])))
+    segs = coq.coq_list(h["segs"], lambda seg: coq.coq_list(seg, enc_ev))
+    return fp, segs
+
+
+def history_predicate(d):
+    """Property predicate for a history on the implementation: every use evaluates its parameter under the
+    most recent outcomes (of the whole multi-segment history), ParameterError if a mode was never measured."""
+    h = d["history"] if "history" in d else d
+    log, err = impl_history(h)
+    store, want = {}, []
+    for seg in h["segs"]:
+        for e in seg:
+            if e[0] == "meas":
+                store[e[1]] = [e[2]]
+            elif e[0] == "use":
+                want.append(ref_eval(e[1], {k: [v, None] for k, v in h["free"].items()}, store))
+    for i, w in enumerate(want):
+        if i >= len(log):
+            return ("history:" + ("cross-segment" if len(h["segs"]) > 1 else "single") + ":aborted", "run stopped with %s before use #%d" % (err, i))
+        g = log[i]
+        if g[0] != w[0] or (g[0] == "ok" and not close(g[1], w[1], 1e-7)):
+            cross = len(h["segs"]) > 1
+            return ("run:cross-segment-measured-value" if cross else "history:latest-outcome",
+                    "use #%d evaluated to %r, the most recent outcomes give %r" % (i, g, w))
+        if w[0] != "ok":
+            break
+    return None
+
+
+def corr_history(ctx):
+    rng = ctx.rng
+    n = ctx.budget(120, 1200)
+    hs = [gen_history(rng) for _ in range(n)]
+    items = []
+    for h in hs:
+        fp, segs = enc_history(h)
+        items.append("(%d, %s, %s)" % (0 if h["mode"] == "eager" else 1, fp, segs))
+    text = (COQ_HEAD + "Definition cases : list (nat * list (nat * fpar float) * list (list (event float))) := [\n" + ";\n".join(items) + "].\n"
+            "Eval vm_compute in map (fun c => match c with (m, fp, segs) => (frun m fp segs, frun 2 fp segs) end) cases.\n")
+    ok, vals, raw = ctx.coq_eval("cases_history", text)
+    if not ok:
+        ctx.obligation("correspondence:history", False, raw)
+        return
+    ctx.traces += len(hs)
+    for h, m in zip(hs, vals[0]):
+        mw = [model_outcome(x) for x in m[0]]
+        log, err = impl_history(h)
+        nuse = sum(1 for s in h["segs"] for e in s if e[0] == "use")
+        ctx.case({"kind": "history", "history": h}, nontrivial=len(h["segs"]) > 1 or any(e[0] == "prep" for s in h["segs"] for e in s),
+                 bucket="hist-%s-%dseg" % (h["mode"], len(h["segs"])))
+        # compare the implementation's log with the as-written model, up to the first error of either
+        bad = None
+        for i, g in enumerate(log):
+            if i >= len(mw):
+                bad = "implementation evaluated more uses than the history has"
+                break
+            w = mw[i]
+            if g[0] != w[0] or (g[0] == "ok" and not close(g[1], w[1], 1e-7)):
+                bad = "use #%d: implementation %r, model %r" % (i, g, w)
+                break
+            if g[0] != "ok":
+                break
+        else:
+            if len(log) < len(mw) and err is None:
+                bad = "implementation evaluated %d uses, model %d" % (len(log), len(mw))
+            elif len(log) < len(mw) and not any(w[0] != "ok" or isinstance(w[1], list) for w in mw[:len(log) + 1]):
+                bad = "implementation stopped with %s after %d uses; the model sees no error there" % (err, len(log))
+        if bad:
+            pb = history_predicate(h)
+            data = {"check": "history", "history": h, "impl_log": [list(x) for x in log], "impl_error": err, "model": [list(x) for x in mw]}
+            if pb:
+                ctx.counterexample(pb[0], pb[1], data)
+            else:
+                ctx.disagreement("corr:history", bad, data)
+            continue
+        # the model says as-written differs from ideal here: evaluate the property on the implementation
+        mi = [model_outcome(x) for x in m[1]]
+        if mw != mi:
+            pb = history_predicate(h)
+            if pb:
+                ctx.counterexample(pb[0], pb[1], {"check": "history", "history": h})
+
+
+def replay_history(ctx, d):
+    h = d["history"]
+    log, err = impl_history(h)
+    print("history:", h)
+    print("implementation evaluated:", log, "exception:", err)
+    pb = history_predicate(h)
+    print("predicate:", pb)
+    return pb is not None
